@@ -20,6 +20,7 @@ package c04
 import (
 	"context"
 	"database/sql"
+	"database/sql/driver"
 	"errors"
 	"fmt"
 	"reflect"
@@ -207,7 +208,39 @@ type Body struct {
 	ID    int
 	Steps []Step
 	Out   string
+	Err   string // Out == err: which error VALUE the block returns ("" its own sentinel; see errValue)
 }
+
+// errValue: the value a block with outcome err returns. What a block returns
+// is the caller's business: the outcome (undo, propagate unchanged) must not
+// depend on it, even when it looks like an error of the database layer.
+func errValue(b *Body) error {
+	switch b.Err {
+	case "canceled":
+		return context.Canceled
+	case "deadline":
+		return context.DeadlineExceeded
+	case "wrapped-canceled":
+		return fmt.Errorf("block %d: step with its own context: %w", b.ID, context.Canceled)
+	case "wrapped-deadline":
+		return fmt.Errorf("block %d: remote call: %w", b.ID, context.DeadlineExceeded)
+	case "txdone":
+		return sql.ErrTxDone
+	case "invalidtx":
+		return gorm.ErrInvalidTransaction
+	case "conndone":
+		return sql.ErrConnDone
+	case "badconn":
+		return driver.ErrBadConn
+	case "notfound":
+		return gorm.ErrRecordNotFound
+	case "wrapped-notfound":
+		return fmt.Errorf("block %d: %w", b.ID, gorm.ErrRecordNotFound)
+	}
+	return &blockErr{b.ID}
+}
+
+var errValues = []string{"canceled", "deadline", "wrapped-canceled", "wrapped-deadline", "txdone", "invalidtx", "conndone", "badconn", "notfound", "wrapped-notfound"}
 
 type Config struct {
 	Prepare     bool // PrepareStmt
@@ -226,6 +259,7 @@ const (
 	fSavepoint = "savepoint"
 	fStmt      = "stmt"
 	fPrepare   = "prepare"
+	fBadConn   = "badconn" // the K-th statement inside a driver transaction fails with driver.ErrBadConn and the connection stays bad: every later statement, PREPARE, SAVEPOINT and the COMMIT on it fail the same way
 )
 
 type FaultPlan struct {
@@ -341,6 +375,9 @@ func (b *Body) render(sb *strings.Builder) {
 			sb.WriteString("; ")
 		}
 		sb.WriteString("-> " + b.Out)
+		if b.Out == outErr && b.Err != "" {
+			sb.WriteString(":" + b.Err)
+		}
 	}
 	sb.WriteString("}")
 }
@@ -569,6 +606,7 @@ type runner struct {
 	cancelTx func()         // cancels the context the running outermost transaction was begun with
 	txKilled bool           // the running outermost transaction has been finished behind Commit's back (manual Rollback / cancelled context)
 	excluded string         // the case turned out to be in a listed known-finding class
+	faultErr error          // what an injected fault returns
 	goexit   bool           // the program has called runtime.Goexit: the goroutine is unwinding
 	handles  []*gorm.DB     // handles of the blocks that are running, outermost first
 	active   []*activeBlock // Transaction blocks that are running
@@ -667,9 +705,9 @@ func (x *runner) stmt(what string, err error, apply func()) error {
 		x.class("fault-hit:in-" + x.faultHit)
 		if err == nil {
 			x.violate("%s: the driver call failed with the injected fault but the statement reported no error", what)
-			return recdrv.ErrInjected
+			return x.faultErr
 		}
-		if !errors.Is(err, recdrv.ErrInjected) {
+		if !errors.Is(err, x.faultErr) {
 			x.violate("%s: returned error %q which is not the injected driver error", what, err)
 		}
 		return err
@@ -906,8 +944,8 @@ func (x *runner) batch(h *gorm.DB, st Step, where string, inTx bool) (bool, erro
 		x.class("batch:fails-by-fault")
 		if err == nil {
 			x.violate("%s: a driver call failed with the injected fault but CreateInBatches reported no error", what)
-			err = recdrv.ErrInjected
-		} else if !errors.Is(err, recdrv.ErrInjected) {
+			err = x.faultErr
+		} else if !errors.Is(err, x.faultErr) {
 			x.violate("%s: returned error %q which is not the injected driver error", what, err)
 		}
 	} else {
@@ -1084,7 +1122,10 @@ func (x *runner) runSteps(own *gorm.DB, b *Body, fr *frame) error {
 		return nil
 	case outErr:
 		x.class("outcome:error")
-		return &blockErr{b.ID}
+		if b.Err != "" {
+			x.class("outcome:error-value:" + b.Err)
+		}
+		return errValue(b)
 	case outErrU:
 		x.class("outcome:error(uncomparable type)")
 		return blockErrU{b.ID, []string{"c04"}}
@@ -1232,9 +1273,9 @@ func (x *runner) callBlock(h *gorm.DB, child *Body, root bool, opts string, ctxC
 				x.violate("%s: injected %s fault turned into panic %v", where, x.faultHit, outPanic)
 				return 2, nil, outPanic
 			}
-			if !errors.Is(cerr, recdrv.ErrInjected) {
+			if !errors.Is(cerr, x.faultErr) {
 				x.violate("%s: %s failed with the injected error but Transaction returned %v", where, x.faultHit, cerr)
-				cerr = recdrv.ErrInjected
+				cerr = x.faultErr
 			}
 			return 1, cerr, nil
 		case x.goexit:
@@ -1309,9 +1350,9 @@ func (x *runner) callBlock(h *gorm.DB, child *Body, root bool, opts string, ctxC
 			x.noteFailure()
 			x.class("fault-hit:commit")
 			x.cur = snap
-			if !errors.Is(cerr, recdrv.ErrInjected) {
+			if !errors.Is(cerr, x.faultErr) {
 				x.violate("%s: COMMIT failed with the injected error but Transaction returned %v: the commit error was lost", where, cerr)
-				return 1, recdrv.ErrInjected, nil
+				return 1, x.faultErr, nil
 			}
 			return 1, cerr, nil
 		}
@@ -1377,7 +1418,7 @@ func (x *runner) manual(h *gorm.DB, b *Body, opts string) {
 	if x.takeFired() {
 		x.noteFailure()
 		x.class("fault-hit:begin")
-		if !errors.Is(tx.Error, recdrv.ErrInjected) {
+		if !errors.Is(tx.Error, x.faultErr) {
 			x.violate("%s: BEGIN failed with the injected error but Begin().Error is %v", where, tx.Error)
 		}
 		if b.ID%2 == 1 {
@@ -1468,7 +1509,7 @@ func (x *runner) manual(h *gorm.DB, b *Body, opts string) {
 			x.noteFailure()
 			x.class("fault-hit:commit")
 			x.cur = snap
-			if !errors.Is(e, recdrv.ErrInjected) {
+			if !errors.Is(e, x.faultErr) {
 				x.violate("%s: COMMIT failed with the injected error but Commit().Error is %v", where, e)
 			}
 			return
@@ -1528,7 +1569,33 @@ func runCase(c Case) result {
 		x.cur[r.K] = r.V
 	}
 	d.Rec.Reset()
-	if c.Fault.Kind != fNone {
+	x.faultErr = recdrv.ErrInjected
+	if c.Fault.Kind == fBadConn {
+		x.faultErr = driver.ErrBadConn
+		n := 0
+		bad := map[int]bool{}
+		d.Rec.SetFault(func(idx int, e *recdrv.Event) error {
+			cat := category(e)
+			if cat == "" || cat == fBegin {
+				return nil // (ROLLBACK / ROLLBACK TO are never faulted)
+			}
+			if bad[e.ConnID] {
+				x.fired = true
+				return driver.ErrBadConn
+			}
+			if cat != fStmt || e.TxID == 0 {
+				return nil
+			}
+			n++
+			if n-1 == c.Fault.K {
+				bad[e.ConnID] = true
+				x.fired = true
+				x.faultHit = fBadConn
+				return driver.ErrBadConn
+			}
+			return nil
+		})
+	} else if c.Fault.Kind != fNone {
 		n := 0
 		d.Rec.SetFault(func(idx int, e *recdrv.Event) error {
 			if x.faultHit != "" {
@@ -1550,6 +1617,7 @@ func runCase(c Case) result {
 	// top level: steps on the root handle
 	for _, st := range c.Top.Steps {
 		root := d.DB
+		evStart := len(d.Rec.Events())
 		x.cancelTx = nil
 		if st.Sess != "" {
 			root = x.session(d.DB, st)
@@ -1635,6 +1703,29 @@ func runCase(c Case) result {
 			}
 		} else {
 			runTop()
+		}
+		if st.Op == opBlock || st.Op == opManual {
+			// every statement of the block ran inside its transaction: between BEGIN and the
+			// COMMIT / ROLLBACK the driver saw nothing outside a transaction
+			evs := d.Rec.Events()
+			if evStart <= len(evs) {
+				evs = evs[evStart:]
+			}
+			first, last := -1, -1
+			for i, e := range evs {
+				if e.Kind == recdrv.Begin && first < 0 && e.Err == nil {
+					first = i
+				}
+				if e.Kind == recdrv.Commit || e.Kind == recdrv.Rollback {
+					last = i
+				}
+			}
+			for i := first + 1; first >= 0 && i < last; i++ {
+				if e := evs[i]; e.TxID == 0 && (e.Kind == recdrv.Exec || e.Kind == recdrv.Query || e.Kind == recdrv.Prepare) {
+					x.violate("top-level step %s: while its transaction was open the statement %q ran OUTSIDE the transaction (connection %d, autocommit)", stepString(st), e.Text, e.ConnID)
+					break
+				}
+			}
 		}
 		// the connection is back in the pool after every top-level step
 		if in := d.SQL.Stats().InUse; in != 0 {
@@ -1999,6 +2090,9 @@ func (g *gen) body(depth int, manual bool) *Body {
 	} else {
 		outs := []string{outNil, outNil, outNil, outNil, outNil, outNil, outNil, outErr, outErr, outErr, outErrU, outPanic, outPanic, outPanic, outPanicNil, outGoexit}
 		b.Out = outs[uniform(g.rt, "outcome", len(outs))]
+		if b.Out == outErr && rapid.Bool().Draw(g.rt, "errvalue?") {
+			b.Err = errValues[uniform(g.rt, "errvalue", len(errValues))]
+		}
 		if depth == 1 && uniform(g.rt, "killed", 8) == 7 {
 			// only the outermost block can finish its transaction behind Commit's back
 			b.Out = []string{outRollbackNil, outCancelNil}[uniform(g.rt, "how", 2)]
@@ -2064,7 +2158,7 @@ func genCase(rt *rapid.T) Case {
 	}
 	// fault plan: aim at a call that exists in the fault-free run
 	w := walk(c)
-	kinds := []string{fNone, fNone, fBegin, fCommit, fSavepoint, fSavepoint, fStmt, fStmt, fStmt}
+	kinds := []string{fNone, fNone, fBegin, fCommit, fSavepoint, fSavepoint, fStmt, fStmt, fStmt, fBadConn, fBadConn}
 	if c.Cfg.Prepare || usesSession(&c.Top, sePrep) {
 		kinds = append(kinds, fPrepare)
 	}
@@ -2079,6 +2173,11 @@ func genCase(rt *rapid.T) Case {
 		count = len(w.sps)
 	case fStmt:
 		count = w.stmts
+	case fBadConn:
+		count = w.stmts
+		if count > 3 && rapid.Bool().Draw(rt, "early") {
+			count = 3 // often an early statement: the first write of a transaction
+		}
 	case fPrepare:
 		count = w.stmts
 	}
@@ -2132,7 +2231,7 @@ func ownSavepoints(b *Body) {
 const rule = "C04: programs on a key→value table: 1-3 top-level steps (db.Transaction tree of depth ≤4, manual Begin…Commit/Rollback, single write/read), " +
 	"block bodies of put/rawput/upd/del/read/SavePoint/RollbackTo/child-block/CreateInBatches steps (CreateInBatches opens its own block; a batch fails by fault or by a repeated key) ending in return nil | return error | panic(value) | panic(nil) | runtime.Goexit() (outermost blocks and manual programs also: Rollback by hand or cancelled context, then return nil / Commit; nested blocks also started WithContext(ctx2) with ctx2 cancelled at the end), parents returning or swallowing a child's error " +
 	"and optionally recovering its panic, every step inside a block going through the block's own handle or the captured handle of any enclosing block (same transaction), optionally through a session derived from that handle (Session{PrepareStmt}, Session{}, Session{NewDB}, WithContext, Session{SkipHooks}, Session{Logger}); manual save point names short, long (67-110 bytes sharing the first 64+ bytes), with digits/underscores/mixed case, private per block; configuration bits PrepareStmt, DisableNestedTransaction, SkipDefaultTransaction (the last two also per Session), CreateBatchSize, TranslateError, RETURNING support; blocks and manual programs with and without *sql.TxOptions and inside db.Connection; fault plan none or the k-th BEGIN/COMMIT/SAVEPOINT/statement/PREPARE " +
-	"driver call fails (never ROLLBACK / ROLLBACK TO); non-trivial = nesting depth ≥2 reached and at least one failure (block returning an error or panicking, fired fault) with successful writes both before and after it; " +
+	"driver call fails (never ROLLBACK / ROLLBACK TO), or the k-th statement inside a transaction fails with driver.ErrBadConn and its connection stays bad; a block that returns an error returns its own sentinel or a value of the database layer (context.Canceled/DeadlineExceeded bare and wrapped, sql.ErrTxDone, sql.ErrConnDone, driver.ErrBadConn, gorm.ErrInvalidTransaction, gorm.ErrRecordNotFound); non-trivial = nesting depth ≥2 reached and at least one failure (block returning an error or panicking, fired fault) with successful writes both before and after it; " +
 	"distinct = configuration + fault plan + initial rows + program text"
 
 func checkCase(t interface {
